@@ -188,6 +188,10 @@ func (i *InvalidationIndex) cutKeys(labeledKeys map[string][]string, labels ...s
 	defer i.mu.Unlock()
 
 	for _, label := range labels {
+		if _, alreadyCut := res[label]; alreadyCut {
+			continue // Label is repeated in arguments.
+		}
+
 		res[label] = labeledKeys[label]
 		delete(labeledKeys, label)
 	}
